@@ -11,7 +11,7 @@ var (
 		W: Weights{Alu: 10, Div: 1, Branch: 3, Jump: 2, Call: 1, Loop: 1, Nop: 1}, TakenPct: 50, ZeroRaPct: 10, MaxDyn: 2000}
 	// MEM: loads and stores mixed with ALU code and control flow.
 	MEM = Profile{Name: "MEM", MinLen: 3, MaxLen: 40, PoolMin: 2, PoolMax: 6, MemSizes: midMem,
-		W: Weights{Alu: 6, Div: 1, Load: 4, Store: 4, Branch: 2, Jump: 1, Call: 1, Loop: 1, Nop: 1}, TakenPct: 50, ZeroRaPct: 10, MaxDyn: 2000, WidePoolPct: 35}
+		W: Weights{Alu: 6, Div: 1, Load: 4, Store: 4, Branch: 2, Jump: 1, Call: 1, Loop: 1, Nop: 1}, TakenPct: 50, ZeroRaPct: 10, MaxDyn: 2000, WidePoolPct: 35, SlowBranchPct: 20}
 	// SHADOW: taken branches and jumps over hostile shadows.
 	SHADOW = Profile{Name: "SHADOW", MinLen: 4, MaxLen: 40, PoolMin: 2, PoolMax: 5, MemSizes: midMem,
 		W: Weights{Alu: 6, Load: 2, Store: 1, Branch: 5, Jump: 3, Loop: 1}, TakenPct: 70, Hostile: true, OOBShadow: true, ErrShadow: true, ZeroRaPct: 8, MaxDyn: 2000, WidePoolPct: 35}
@@ -38,10 +38,10 @@ var (
 	// CACHE: loads and stores over memories larger than every cache, spread over
 	// all lines.
 	CACHE = Profile{Name: "CACHE", MinLen: 8, MaxLen: 60, PoolMin: 2, PoolMax: 5, MemSizes: bigMem,
-		W: Weights{Alu: 3, Load: 5, Store: 5, Branch: 1, Loop: 1, Walk: 3, EvictReread: 1}, TakenPct: 50, ZeroRaPct: 5, MaxDyn: 3000, LineSpread: true, WidePoolPct: 35}
+		W: Weights{Alu: 3, Load: 5, Store: 5, Branch: 1, Loop: 1, Walk: 3, EvictReread: 1}, TakenPct: 50, ZeroRaPct: 5, MaxDyn: 3000, LineSpread: true, WidePoolPct: 35, SlowBranchPct: 10}
 	// TAIL body.
 	TAIL = Profile{Name: "TAIL", MinLen: 0, MaxLen: 16, PoolMin: 2, PoolMax: 5, MemSizes: midMem,
-		W: Weights{Alu: 6, Load: 3, Store: 3, Branch: 1, Loop: 1}, TakenPct: 50, ZeroRaPct: 5, MaxDyn: 1500, LineSpread: true, WidePoolPct: 35}
+		W: Weights{Alu: 6, Load: 3, Store: 3, Branch: 1, Loop: 1}, TakenPct: 50, ZeroRaPct: 5, MaxDyn: 1500, LineSpread: true, WidePoolPct: 35, SlowBranchPct: 25}
 	// PAIR filler.
 	PAIR = Profile{Name: "PAIR", MinLen: 0, MaxLen: 30, PoolMin: 3, PoolMax: 5, MemSizes: []int{256, 1024, 4096},
 		W: Weights{Alu: 8, Load: 1, Branch: 1}, TakenPct: 50, ZeroRaPct: 5, MaxDyn: 1500, WidePoolPct: 35}
@@ -60,7 +60,7 @@ var (
 // upgraded, and memory work that waits behind a miss while a younger control
 // transfer redirects the pipeline (Builder.Behind), mixed with ordinary code.
 var OWNER = Profile{Name: "OWNER", MinLen: 6, MaxLen: 40, PoolMin: 3, PoolMax: 6, MemSizes: []int{512, 1024, 4096},
-	W: Weights{Alu: 6, Load: 2, Store: 2, Branch: 1, Jump: 1, Behind: 4}, TakenPct: 50, ZeroRaPct: 5, MaxDyn: 2000, NoSubword: false, WidePoolPct: 35}
+	W: Weights{Alu: 6, Load: 2, Store: 2, Branch: 1, Jump: 1, Behind: 4}, TakenPct: 50, ZeroRaPct: 5, MaxDyn: 2000, NoSubword: false, WidePoolPct: 35, SlowBranchPct: 15}
 
 // PRESSUREMEM: PRESSURELOAD plus stores to the other half of memory (no memory
 // conflict arises): a store that misses keeps a write unit busy for the memory
